@@ -16,7 +16,13 @@ CHECKS = {
             "", "DESIGN.md 5/C01"),
     "C02": (TV, "Lean model + correspondence (proofs in progress)", CORR, "", "DESIGN.md 5/C02"),
     "C03": (TV, "Lean model + correspondence (proofs in progress)", CORR, "", "DESIGN.md 5/C03"),
-    "C04": (TV, "Lean model + correspondence (proofs in progress)", CORR, "", "DESIGN.md 5/C04"),
+    "C04": (PR, "Lean 4 theorem commute_sound_partial over all 49 operation-class pairs + machine-checked counterexample for the one unsound pair + correspondence",
+            "Machine-checked for every pair of unary operations with arbitrary parameters, every target column set and "
+            "row list: a reported move (full or partial) yields the same rows in the same order and both reported "
+            "operations are well-formed; no move => the existing operation is handed back. The single exception, "
+            "Projection over Deduplication (finding F04), is excluded from the theorem and proved unsound by a concrete "
+            "witness that the check replays on the implementation. PartialJoin.commute is validated, not proved. " + CORR,
+            "", "DESIGN.md 5/C04"),
     "C05": (PR, "Lean 4 theorems (slice/sort/selection/projection merge, simplify, _finish_apply) + correspondence",
             "Machine-checked: Slice.then total and exact for all bounds, Sort.then = sequential stable sorts, "
             "simplify sound and total for every pair, _finish_apply preserves the reference semantics through any "
